@@ -70,7 +70,8 @@ def _(self, data: Tup(Str, Val)):
     # known alternative: its own constraints; unknown alternative: accepted iff the CHOICE is extensible
     raises_iff(ConstraintsError,
                (data[0] in self.name_to_member and not cc_ok(ident(self.name_to_member[data[0]]), data[1]))
-               or (data[0] not in self.name_to_member and not self.has_extension_marker))
+               or (data[0] not in self.name_to_member and not self.has_extension_marker),
+               ensures=[implies(data[0] in self.name_to_member, located_at(exc, self.name_to_member[data[0]]))])
 
 
 @contract("Recursive.encode", props=["C11", "C12"])
@@ -80,4 +81,4 @@ def _(self, data: Val):
 
 @contract("CompiledType.encode", props=["C11", "C12"])
 def _(self, data: Val):
-    raises_iff(ConstraintsError, not cc_ok(ident(self._type), data))
+    raises_iff(ConstraintsError, not cc_ok(ident(self._type), data), ensures=[located_at(exc, self._type)])
